@@ -30,7 +30,7 @@ RULE = ("Four generated case kinds, all comparing bytes of (xform, warnings, ite
         ">= 1 regeneration; threads: >= 3 context switches actually taken between conversions of different forms; distinct by SHA-1 of the case JSON")
 ASSUMPTIONS = ["hash seeds are sampled (2^32 values), not enumerated",
                "thread switch points are pyxform function-call boundaries; finer interleavings are probed only by the free-running stress kind",
-               "every conversion receives a fresh deep copy of its input (pyxform documents that it mutates a dict input)",
+               "every conversion receives its own deep copy of the input, which must come back unchanged; the seeds kind converts the same object twice",
                "error messages of rejected forms are compared too (same bytes), which is slightly more than the statement demands of results"]
 BUDGET = {"quick": 1100, "thorough": 40000}
 REQUIRED_LABELS = ["kind:seeds", "kind:history", "kind:threads", "kind:stress", "history:repeat-after-other", "history:regen", "threads:switches>=3", "threads:focus-switches>=3",
@@ -276,6 +276,14 @@ def common_checks(out, res, where):
     out.checked("C14.no-temp-residue")
     if res.get("tmp"):
         out.fail("C14.no-temp-residue", where, f"temporary files left behind: {res['tmp'][:4]}")
+    if "input_unchanged" in res:
+        out.checked("C14.input-unchanged")
+        if res["input_unchanged"] is False:
+            out.fail("C14.input-unchanged", where, "the workbook dict handed to convert() was modified by the conversion")
+    if "second_same" in res:
+        out.checked("C14.same-object-twice")
+        if res["second_same"] is False:
+            out.fail("C14.same-object-twice", where, f"converting the same workbook object a second time gave another result: {res.get('second')}")
     out.checked("C14.module-tables-unchanged")
     if res.get("tables_same") is False:
         out.fail("C14.module-tables-unchanged", where, "a module-level table of pyxform differs from its state at import")
@@ -313,7 +321,7 @@ def evaluate(case) -> Outcome:
             out.label("seeds:" + str(ref.get("status")))
         extra = [Worker(h) for h in case.get("hashseeds", [])]  # regression cases name their hash seeds
         for w in [*ws, *extra]:
-            res = w.ask(dict(job, op="convert"))
+            res = w.ask(dict(job, op="convert", twice=True))
             if w in extra:
                 w.close()
             common_checks(out, res, "seeds")
